@@ -28,7 +28,7 @@ CHECKS = {
          "Held (up to the two listed known findings) on the executions explored: random fork/join DAGs of 3..9 tasks with publish / publish-on-error / transition-level branch and global publishes of values unique to their publisher (scalars, lists, dictionaries with publisher-specific keys, nested, empty), literal / YAQL / Jinja, fallbacks in input / vars / environment, some tasks attempting to mutate what they see through Jinja method calls; each program under several id orders (seeded uuids) and unit orders; oracle: every variable a task's action receives and every output variable is exactly the value of a causally maximal publisher among the ancestors (fallback if none; concurrent publishers for globals), stored in_context / published / input columns change only in the commits that legitimately write them, evaluate_recursively leaves its context argument unchanged (icontract). Programs include inbound transitions that do not fire into partial joins (a task named as inbound but not on a causal path must not contribute data).",
          "runtime monitoring: causal-order oracle over recorded ACTION_RUN inputs with unique published values + per-commit column-stability monitor + runtime contract (icontract) on evaluate_recursively"),
  'C06': ('fault_enumeration',
-         "Held on the fault sequences enumerated: for each recorded message of a base run a copy is delivered at later unit boundaries of the identical schedule (start_task, on_action_complete incl. sub-workflow results, start_workflow with id), run_action is redelivered with/without losing the original x safe-rerun; oracle: normal form and row counts equal to the duplicate-free run, run-once and accepted-once counters. Base histories may contain an operator pause (workflow / running asynchronous action) and resume, so copies also reach PAUSED tasks; per action execution the genuine results never outnumber its runs.",
+         "Held on the fault sequences enumerated: for each recorded message of a base run a copy is delivered at later unit boundaries of the identical schedule (start_task, on_action_complete incl. sub-workflow results, start_workflow with id), run_action is redelivered with/without losing the original x safe-rerun; oracle: normal form and row counts equal to the duplicate-free run, run-once and accepted-once counters. Base histories may contain an operator pause (workflow / running asynchronous action) and resume, so copies also reach PAUSED tasks; per action execution the genuine results never outnumber its runs; lost compare-and-swap injection (another process completes the task first): the loser creates no task and sends no start request.",
          "runtime monitoring: offline comparison of recorded histories (duplicate-free vs duplicated run) + exactly-once counters over ACTION_RUN / RPC_SEND events under message duplication at every position"),
  'C07': ('exploration',
          "Held on the executions explored: a with-items task over 0..7 items (actions or sub-workflows, one or two collections), concurrency absent / 1..n+1 / expression, per-item success / error / cancel, optional retry, item results held by the harness and delivered in every order (n! for small n) under several transaction orders; invariants evaluated after every commit (per index at most one accepted-or-unfinished child, indexes in range, unfinished children <= concurrency, no completion before every item is accepted) and at completion (state by the statement, published result in item order, empty list succeeds without children). Also: rerun of the failed task inside several failed sub-workflow items back to back, rerun of CANCELLED tasks (also while items of the cancelled attempt still run), a warm engine process (same definition run before with another concurrency).",
@@ -61,7 +61,7 @@ CHECKS = {
          "Held on the enumerated matrix: every exposed controller method found by walking the controller tree is driven through the real WSGI application (resource present / absent): with default rules the first ENFORCE event names the documented rule and no tenant SQL / RPC precedes it; with that rule denied the answer is 403 for admin and member, with no tenant SQL, no RPC and identical table dumps; cross-project listing needs :list:all_projects, scope=public needs :publicize; state guards: every (current state x requested state x description/env) for executions, (state x state x reset) for tasks, every requested state for action executions, DELETE with/without force on every state, judged by the table of the statement.",
          "runtime monitoring: per-request event-order monitor (ENFORCE before SQL/RPC) and no-effect monitor (table dumps) over the real WSGI app, exhaustive request matrix"),
  'C17': ('fault_enumeration',
-         "Held (up to the listed known finding) on the schedules and crash points enumerated: 1..3 processors running the real process_cron_triggers_v2 as cooperative units with yield points before each DB step, triggers over patterns x first time x count x two projects with colliding names, rounds at clock positions around the due time and with lags of 1/7/100 periods; dfs + randomized interleavings; sys.monitoring LINE failpoints kill a processor at every statement of process_cron_triggers_v2 / advance_cron_trigger; oracle: every committed advance or final delete is followed by exactly one start_workflow of the same processor with the trigger's input, params, project and trust, no start without an advance, next_execution_time strictly increasing along the pattern, fires <= count and removal after the last. An occurrence is consumed only when it is due on the service clock.",
+         "Held (up to the listed known finding) on the schedules and crash points enumerated: 1..3 processors running the real process_cron_triggers_v2 as cooperative units with yield points before each DB step, triggers over patterns x first time x count x two projects with colliding names, rounds at clock positions around the due time and with lags of 1/7/100 periods; dfs + randomized interleavings; sys.monitoring LINE failpoints kill a processor at every statement of process_cron_triggers_v2 / advance_cron_trigger; oracle: every committed advance or final delete is followed by exactly one start_workflow of the same processor with the trigger's input, params, project and trust, no start without an advance, next_execution_time strictly increasing along the pattern, fires <= count and removal after the last. An occurrence is consumed only when it is due on the service clock; concurrent-writer injection (another process's DELETE / conditional UPDATE of the trigger row takes effect right before this one's): the loser must not start the workflow.",
          "runtime monitoring: offline checker over recorded trigger-row history and start_workflow calls, under dfs interleaving and statement-level crash injection"),
  'C18': ('exploration',
          "Held on the populations explored: random populations of execution trees (states, ages with ties, projects, nesting) x settings of older_than / max_finished_executions / batch_size / ignored_states incl. unset; one call of the real run_execution_expiration_policy compared with a 25-line reference of what must remain, plus tree completeness of survivors, whole-tree deletion, no ineligible deletion, no newer-deleted-while-older-kept, termination within a fetch budget. A share of the populations runs with a persistent failure of one delete (termination within the step budget, eligibility and completeness only).",
